@@ -13,13 +13,14 @@ view(data: bytes) -> {
       "shared:<part>x<n>"           a drawing part used by n > 1 sheets, a chart part used by n > 1 graphic frames
       "rid:<part>:<rid>"            an r:id / r:embed / r:link used in a sheet's <drawing> or inside a drawing part that
                                     the part's own relationship part does not define, or that has the wrong kind
+  "badk":   [str]    the distinct kinds (text before the first ':') of "bad"
   "badf":   [str]    "formula:<chart part>:<text>" for every series formula whose sheet name needs quotes (white space or
                      ASCII punctuation other than '_' and '.') and is written without them
   "sheets": [{       one entry per <sheet> of the workbook part, in workbook order
       "name"
-      "imgs":   [{"r1","c1","r2","c2","two","off","nm","dg"}]   pictures (xdr:pic, or xdr:grpSp holding a picture) in
+      "imgs":   [{"r1","c1","r2","c2","two","off","ext","nm","nk","dg"}]   pictures (xdr:pic, or xdr:grpSp holding a picture) in
                  document order: anchor cells 1-based (r2 = c2 = 0 and two = false for a oneCellAnchor), "off" =
-                 [colOff, rowOff, colOff2, rowOff2], nm = base name of the media part, dg = content token of ITS bytes
+                 [colOff, rowOff, colOff2, rowOff2], ext = [cx, cy] of a oneCellAnchor ([0, 0] otherwise), nm = base name of the media part, nk = name_kind(nm), dg = content token of ITS bytes
                  ("none" if the blip does not resolve)
       "charts": [{"r1","c1","r2","c2","off","ct","ser","refs","qn","ti","tt"}]   graphic frames that hold a chart, document order:
                  ct = local names of the *Chart children of c:plotArea (sorted, joined by "+"), ser = the c:f texts
@@ -55,8 +56,21 @@ def token(data):
     return "%016x-%d" % (h, len(data))
 
 
+KNOWN_EXT = ("png", "jpg", "jpeg", "tiff", "tif", "gif", "bmp", "svg", "wmf", "emf")
+
+
+def name_kind(name):
+    """classification of a picture's file name, used only as the trigger of two known-finding deviations:
+    "hash" - it holds a '#' (in a relationship target everything after '#' is a fragment), "ext" - its extension is
+    none of the picture extensions the writer declares a content type for, "" otherwise"""
+    if "#" in name:
+        return "hash"
+    ext = name.rsplit(".", 1)[-1].lower() if "." in name else ""
+    return "" if ext in KNOWN_EXT else "ext"
+
+
 def empty():
-    return {"ok": False, "bad": [], "badf": [], "sheets": []}
+    return {"ok": False, "bad": [], "badk": [], "badf": [], "sheets": []}
 
 
 def _x(tag):
@@ -88,7 +102,14 @@ def _anchor(an):
     cl = lambda v: max(0, min(INT_MAX, v))
     sg = lambda v: max(-INT_MAX, min(INT_MAX, v))
     off = [sg(_int(f, "colOff")), sg(_int(f, "rowOff")), sg(_int(t, "colOff")) if two else 0, sg(_int(t, "rowOff")) if two else 0]
-    return {"r1": cl(r1), "c1": cl(c1), "r2": cl(r2), "c2": cl(c2), "two": two, "off": off}
+    ext = [0, 0]
+    x = an.find(_x("ext"))
+    if x is not None and not two:
+        try:
+            ext = [sg(int(x.get("cx", "0"))), sg(int(x.get("cy", "0")))]
+        except ValueError:
+            ext = [-1, -1]
+    return {"r1": cl(r1), "c1": cl(c1), "r2": cl(r2), "c2": cl(c2), "two": two, "off": off, "ext": ext}
 
 
 def _chart_view(pkg, part):
@@ -293,7 +314,7 @@ def view(data):
                             ctype, _s = pkg.content_type(t["resolved"])
                             if not ctype.startswith("image/"):
                                 bad.add("type:%s=%s" % (t["resolved"], ctype))
-                    e["imgs"].append(dict(pos, nm=nm, dg=dg))
+                    e["imgs"].append(dict(pos, nm=nm, nk=name_kind(nm) if nm else "", dg=dg))
                     continue
                 e["oth"] += 1
         if dparts:
@@ -305,6 +326,7 @@ def view(data):
         if n > 1:
             bad.add("shared:%sx%d" % (p, n))
     out["bad"] = sorted(bad)
+    out["badk"] = sorted({b.split(":", 1)[0] for b in bad})
     out["badf"] = sorted(badf)
     return out
 
